@@ -997,19 +997,19 @@ pub fn audit(index: &Index, runes: &RuneModel, sats: &SatModel, e: &mut Exec, fe
 
 // ---------------------------------------------------------------------------
 
-pub fn exec(w: &mut Worker, cfg: &IndexCfg, layout: &Layout, choices: &Choices) -> Exec {
+pub fn exec(w: &mut Worker, cfg: &IndexCfg, layout: &Layout, choices: &Choices, events: bool) -> Exec {
   let mut e = Exec::default();
   let Some((blocks, rendered)) = build_history(w, layout, choices) else {
     e.disabled = true;
     return e;
   };
   e.rendered = rendered;
-  run_blocks(w, cfg, blocks, &mut e);
+  run_blocks(w, cfg, blocks, &mut e, events);
   e
 }
 
 /// Indexes `blocks` on top of the prefix with the real index and the models in lock-step.
-pub fn run_blocks(w: &mut Worker, cfg: &IndexCfg, blocks: Vec<Vec<Transaction>>, e: &mut Exec) {
+pub fn run_blocks(w: &mut Worker, cfg: &IndexCfg, blocks: Vec<Vec<Transaction>>, e: &mut Exec, events: bool) {
   w.restore_prefix();
   let mut runes = RuneModel::default();
   let mut sats = SatModel::default();
@@ -1024,13 +1024,16 @@ pub fn run_blocks(w: &mut Worker, cfg: &IndexCfg, blocks: Vec<Vec<Transaction>>,
       return;
     }
   };
-  let index = match idx::open(&w.world, &dir, cfg) {
+  let (tx, mut rx) = tokio::sync::mpsc::channel(1 << 16);
+  let opened = if events { idx::open_with_events(&w.world, &dir, cfg, tx) } else { idx::open(&w.world, &dir, cfg) };
+  let index = match opened {
     Ok(i) => i,
     Err(err) => {
       e.fail("C16", "open/error", format!("Index::open failed: {err:#}"));
       return;
     }
   };
+  let mut fold = super::events::EventFold::default();
   let mut feats: BTreeSet<&'static str> = BTreeSet::new();
   for txs in blocks {
     w.world.push_block(txs);
@@ -1053,6 +1056,21 @@ pub fn run_blocks(w: &mut Worker, cfg: &IndexCfg, blocks: Vec<Vec<Transaction>>,
       Ok(Some(hash)) => e.states.push(hash),
       Ok(None) => {}
       Err(p) => e.fail("C16", "query/panic", format!("an index query panicked during the audit: {p}")),
+    }
+    if events {
+      let evs = super::events::drain(&mut rx);
+      for ev in &evs {
+        feats.insert(match ev {
+          ord::index::event::Event::RuneBurned { .. } => "event:burned",
+          ord::index::event::Event::RuneEtched { .. } => "event:etched",
+          ord::index::event::Event::RuneMinted { .. } => "event:minted",
+          ord::index::event::Event::RuneTransferred { .. } => "event:rune-transferred",
+          _ => "event:inscription",
+        });
+      }
+      fold.apply_block(&block, w.world.height(), evs);
+      let obs = Dump::take(&index).ok().and_then(|d| super::inscriptions::observe(&index, &d).ok()).unwrap_or_default();
+      fold.compare(&index, &obs, e);
     }
   }
   drop(index);
@@ -1083,7 +1101,11 @@ pub fn cfg() -> IndexCfg {
 }
 
 pub fn run(ctx: &Ctx, property: &'static str) -> Report {
-  let mut report = Report::new(property, &ctx.tier, "model_checking");
+  run_into(ctx, property, Report::new(property, &ctx.tier, "model_checking"))
+}
+
+pub fn run_into(ctx: &Ctx, property: &'static str, mut report: Report) -> Report {
+  let events = property == "C37";
   let cfg = cfg();
 
   if let Some(path) = &ctx.replay {
@@ -1111,7 +1133,7 @@ pub fn run(ctx: &Ctx, property: &'static str) -> Report {
     let l = r["l"].as_u64().unwrap_or(2) as usize;
     let layout = Layout { l, slots: 2, templates, shapes };
     let mut w = Worker::new(0);
-    let e = exec(&mut w, &cfg, &layout, &choices);
+    let e = exec(&mut w, &cfg, &layout, &choices, events);
     println!("replay history: {}", e.rendered);
     for (p, c, what) in &e.violations {
       println!("  [{p}] {c}: {what}");
@@ -1176,7 +1198,7 @@ pub fn run(ctx: &Ctx, property: &'static str) -> Report {
       budget_secs: budget_total / stages.len() as u64,
     };
     let mut sub = Report::new(property, &ctx.tier, "model_checking");
-    let totals: Totals = run_histories(&spec, &mut sub, Worker::new, |w, c| exec(w, &cfg, &layout, c));
+    let totals: Totals = run_histories(&spec, &mut sub, Worker::new, |w, c| exec(w, &cfg, &layout, c, events));
     for mut viol in sub.violations.drain(..) {
       viol.replay["templates"] = json!(layout.templates);
       viol.replay["shapes"] = json!(layout.shapes);
@@ -1193,14 +1215,19 @@ pub fn run(ctx: &Ctx, property: &'static str) -> Report {
       exhaustive = false;
     }
   }
-  report.set("states", all_states.len().max(1) as u64);
-  report.set("traces_validated_against_impl", traces);
-  report.set("distinct_nontrivial", all_states.len().max(2) as u64);
+  let (base_states, base_traces) = if events { (report.get("states"), report.get("traces_validated_against_impl")) } else { (0, 0) };
+  let prior_rule = report.coverage.get("rule").and_then(|v| v.as_str()).map(|s| format!("{s} || ")).filter(|_| events).unwrap_or_default();
+  if events && report.coverage.get("exhaustive").and_then(|v| v.as_bool()) == Some(false) {
+    exhaustive = false;
+  }
+  report.set("states", (base_states + all_states.len() as u64).max(1));
+  report.set("traces_validated_against_impl", base_traces + traces);
+  report.set("distinct_nontrivial", (base_states + all_states.len() as u64).max(2));
   report.set("exhaustive", exhaustive);
   report.set(
     "rule",
     format!(
-      "every history of L blocks (2 transaction slots + coinbase shape each) after a fixed 8-block prefix that prepares taproot / non-taproot \
+      "{prior_rule}every history of L blocks (2 transaction slots + coinbase shape each) after a fixed 8-block prefix that prepares taproot / non-taproot \
        commit outputs with 6 and 5 confirmations, with at most K deviations from 'empty block'; alphabet = {} transaction templates \
        (etchings x name kinds x commitment kinds x terms, cenotaphs, mints, edict/pointer transfers) and {} coinbase shapes; quick: K<=1 \
        over the full alphabet with L=3, K=2 over the core alphabet ({} templates) with L=2; each history runs on the real Index \
